@@ -341,6 +341,15 @@ theorem C07_mark_lig_call {c c' : Ctx} {mc lc : Gsub.Cov} {marks : MarkArray} {l
          AttachedTo c c' t mx my bx byy) :=
   markLigApply_spec h hps hlen hinv
 
+/-- non-vacuity: ligature L (3 components, ligature id 1), a mark of component 2 (same id) and a trailing mark
+    without id: the first lands on component 2, the second on the last component, both linked to L -/
+example : ((applyForward [.markLig [7] [4] [(0, 1, 1)] [{ rows := 3, cols := 1, flat := [some (10, 0), some (20, 0), some (30, 0)] }]]
+      3 { font := {}, info := [{ gid := 4, mask := 1, var1 := 0x24 + (32 + 16 + 3) * 65536 },
+                                { gid := 7, mask := 1, var1 := 8 + (32 + 2) * 65536 }, { gid := 7, mask := 1, var1 := 8 }],
+          len := 3, pos := #[{ xa := 900 }, {}, {}] }).toOption.map (·.pos)) =
+    some #[{ xa := 900 }, { xo := 19, yo := -1, chain := -1, atype := 1 }, { xo := 29, yo := -1, chain := -2, atype := 1 }] := by
+  decide +kernel
+
 /-- The component: the mark's own component number when mark and ligature carry the same non-zero ligature id
     (clamped to the components the font describes), otherwise the last component. -/
 theorem C07_lig_component (lig cur : Info) (n : Nat) (hn : 0 < n) :
@@ -459,6 +468,19 @@ theorem C07_mark_pass_coincide (d : Dir) {p : Nat → Bool} {subs : List Sub} {c
             ((penOrigin (visible q c.len d) (outIdx d c.len t)).1 + b.xo,
              (penOrigin (visible q c.len d) (outIdx d c.len t)).2 + b.yo) :=
   pass_coincide d h hidx hs hps hlen hpl hfresh hstart
+
+/-- non-vacuity of `C07_mark_pass_coincide`: the context of the seed scenario satisfies every hypothesis -/
+example : ∃ (c : Ctx) (p : Nat → Bool) (subs : List Sub), c.idx = 0 ∧ SubsAdm c p subs ∧ c.perSyllable = false ∧
+    c.len ≤ c.info.length ∧ c.len ≤ c.pos.size ∧ (c.lastBase = -1 ∧ c.lastBaseUntil = 0) ∧
+    (∀ (k : Nat) (a : Pos), c.pos[k]? = some a → a.chain = 0) ∧ (applyForward subs c.len c).toOption.isSome = true := by
+  refine ⟨{ font := {}, info := [{ gid := 1, mask := 1, var1 := 2 }, { gid := 2, mask := 1, var1 := 2 }, { gid := 3, mask := 1, var1 := 8 }],
+            len := 3, pos := #[{ xa := 1000 }, { xa := 600 }, {}] }, _,
+    [.markBase [2, 3] [1, 2] [(0, 0, 0), (0, 50, 20)] { rows := 2, cols := 1, flat := [some (800, 100), some (300, 650)] }],
+    rfl, fun s hs => Or.inr ⟨_, _, _, _, List.mem_singleton.mp hs, rfl⟩, rfl, by decide, by decide, ⟨rfl, rfl⟩, ?_, by decide +kernel⟩
+  intro k a hk
+  have hk3 : k < 3 := lt_of_get? hk
+  have : k = 0 ∨ k = 1 ∨ k = 2 := by omega
+  rcases this with rfl | rfl | rfl <;> simp at hk <;> subst hk <;> rfl
 
 end RbModel.GposMark
 
